@@ -1,6 +1,7 @@
 import LeptosModel.Proofs.ViewFinal
 import LeptosModel.Proofs.ViewSer2
 import LeptosModel.Proofs.ViewAttrs3
+import LeptosModel.Proofs.ViewSpread
 /-!
 # C03 — updating a view in place gives the same DOM as rendering it fresh
 
@@ -982,5 +983,43 @@ example :
     (View.elem "div" [.psty "Color" "red", .psty "color " "blue"] .unit).inFragment3 = false ∧
     (View.elem "div" [.psty "a;b" "red"] .unit).inFragment3 = false ∧
     (View.elem "div" [.psty "color" "red; width: 1px"] .unit).inFragment3 = false := by decide
+
+/-! ## erased / cloneable attribute forms, optional whole-value style, attribute spreading
+
+The Rust string type of an attribute value (`String`, `&str`, `Cow`, `Arc<str>`, `Oco`) and the
+`into_cloneable()` / `into_cloneable_owned()` conversions that `into_any()` / `add_any_attr` apply do
+not exist in the model (one string type): every theorem above holds for all of them alike, and the
+correspondence run compares each form against the same model value.  `Style<Option<_>>` is the
+optional named attribute `style` (`.ostr "style"`, stage 2a).  Spreading is `View.spread`. -/
+
+/-- **C03_spread_typed**: spreading an item whose key is new on the elements it reaches keeps a
+view a value of a well-formed type, so the theorems of this file speak about spread views -/
+theorem C03_spread_typed {v : View} {ty : Ty} (a : AttrVal) (h : HasTy v ty)
+    (hk : Ty.spreadKeysOk a.ty ty = true) (hv : View.spreadKeysOk a.ty v = true) :
+    HasTy (View.spread a v) (Ty.spread a.ty ty) := h.spread a hk hv
+
+set_option maxRecDepth 16384 in
+/-- round-3 seed 3 as a model fact: an element with a class and an optional whole-value style,
+`Some -> None -> Some`, also inside an `AnyView` (where the code holds `Arc<str>` values): in the
+proved fragment (stage 2a), and the update equals the fresh render -/
+example :
+    let t : Ty := .elem "div" [.cls, .ostr "style"] .unit
+    let a : View := .elem "div" [.cls "card", .ostr "style" (some "color: red")] .unit
+    let b : View := .elem "div" [.cls "card", .ostr "style" none] .unit
+    HasTy a t ∧ HasTy b t ∧ a.inFragment2 = true ∧ b.inFragment2 = true ∧
+    updateSeqEqFresh a [b, a, b] = true ∧
+    updateSeqEqFresh (.any t a) [.any t b, .any t a] = true := by decide
+
+set_option maxRecDepth 16384 in
+/-- non-vacuity of `C03_spread_typed` and of stage 2b on a spread view: an optional class spread
+over a tuple with two elements and a text -/
+example :
+    let ty : Ty := .tuple [.elem "div" [.str "id"] .unit, .text, .elem "p" [.tcls] .text]
+    let v : View := .tuple [.elem "div" [.str "id" "x"] .unit, .text "t", .elem "p" [.tcls "on" true] (.text "u")]
+    let a : AttrVal := .ostr "title" (some "k")
+    let b : AttrVal := .ostr "title" none
+    HasTy v ty ∧ Ty.spreadKeysOk a.ty ty = true ∧ View.spreadKeysOk a.ty v = true ∧
+    (View.spread a v).inFragment3 = true ∧ (View.spread a v).pairItems (View.spread b v) = true ∧
+    updateSeqEqFresh (View.spread a v) [View.spread b v, View.spread a v] = true := by decide
 
 end Leptos.View
